@@ -8,7 +8,9 @@ def o(s):
     return [ord(c) for c in s]
 
 
-CAPITALISABLE = ["one", "two", "three", "kettő", "ábc", "ice-cream", "o'neil", "zebra", "łódź", "ñu", "polish", "größe", "x-ray-gun", "mcdonald", "'tis", ".net", "#tag", "(sic)"]
+CAPITALISABLE = ["one", "two", "three", "kettő", "ábc", "ice-cream", "o'neil", "zebra", "łódź", "ñu", "polish", "größe", "x-ray-gun", "mcdonald", "'tis", ".net", "#tag", "(sic)",
+                 # title forms with MORE bytes than the word (2 -> 3) and with FEWER (2 -> 1); words ending in what separators are made of
+                 "ɐb", "ȿx", "ɥz", "ıx", "ſy", "co-", "mp3", "e.g."]
 UNCAP = ["4x", "Polish", "漢字", "-dash", "Łódź", "USA", "7"]
 SCHEMES = ["none", "first", "all", "random", "one"]
 
@@ -103,18 +105,20 @@ def directed_trees(rng):
     return out
 
 
-def run_scenarios(ctx, scenarios, name, shards=None):
+def run_scenarios(ctx, scenarios, name, shards=None, stderr_path=None):
     shards = shards or min(vlib.NCPU, max(1, len(scenarios) // 3))
     scen = ctx.path("wscen-%s.ndjson" % name)
     with open(scen, "w") as f:
-        for s in scenarios:
+        for i, s in enumerate(scenarios):
+            if i % 4 == 1 and "prefault" not in s:      # every fourth cell comes after a call whose random source failed (recovered)
+                s = dict(s, prefault=1 + (i // 4) % 6)
             f.write(json.dumps(s) + "\n")
     drv = ctx.build_harness()
     procs, files = [], []
     for k in range(shards):
         out = ctx.path("wtrace-%s-%d.ndjson" % (name, k))
         files.append(out)
-        procs.append(ctx.spawn([drv, "wltree", "-seed", str(ctx.seed), "-scen", scen, "-out", out, "-shard", str(k), "-shards", str(shards)]))
+        procs.append(ctx.spawn([drv, "wltree", "-seed", str(ctx.seed), "-scen", scen, "-out", out, "-shard", str(k), "-shards", str(shards)], stderr_path=stderr_path))
     cells = leaves = 0
     for p in procs:
         rc_, o_, e = ctx.wait(p)
@@ -274,7 +278,7 @@ def run_sequences(ctx, seqs, name):
 def ctor_collision_sequences():
     """Input lists that a process-wide memo of NewWordList keyed on a content fingerprint could confuse (same number of entries and
     same concatenation, different word boundaries), constructed one after the other in ONE process, in both orders."""
-    pairs = [(["ab", "c"], ["a", "bc"]), (["zaz", "a", "zb"], ["za", "za", "zb"]), (["Polishpo", "lish", "five"], ["Polish", "polish", "five"]),
+    pairs = [(["ab", "c"], ["a", "bc"]), (["ab", "c"], ["a", "b", "c"]), (["onetwo"], ["one", "two"]), (["aA", "b"], ["a", "A", "b"]), (["a", "Ab"], ["aA", "b"]), (["zaz", "a", "zb"], ["za", "za", "zb"]), (["Polishpo", "lish", "five"], ["Polish", "polish", "five"]),
              (["one", "two"], ["on", "etwo"]), (["x y", "z"], ["x", "y z"]),
              # what one construction removed must not be remembered by the next one
              (["polish", "Polish", "one"], ["Polish", "two"]), (["usa", "Usa", "x"], ["Usa"]), (["a", "a", "b"], ["a", "c"])]
